@@ -50,6 +50,10 @@ impl Payload {
         let serial = ledger::create(ix, origin);
         Payload { serial, val, tag: tag_for(ix, serial, val) }
     }
+    fn new_untracked(ix: u8, val: u64, origin: Origin) -> Payload {
+        let serial = ledger::create_untracked(ix, origin);
+        Payload { serial, val, tag: tag_for(ix, serial, val) }
+    }
     fn integrity(&self, ix: u8, name: &str) -> Result<(), String> {
         if self.tag != tag_for(ix, self.serial, self.val) {
             return Err(format!(
@@ -438,44 +442,40 @@ macro_rules! byte_type {
     };
 }
 
-/// Plain value WITHOUT a destructor (`needs_drop::<T>() == false`) whose `Clone` can still fail:
-/// the configuration in which generic code may take "trivially droppable" shortcuts. Its drops
-/// cannot be observed, so it is excluded from the drop ledger; its value and integrity tag are
-/// checked like everyone else's.
+/// Plain value WITHOUT a destructor (`needs_drop::<T>() == false`) that is not `Copy` and whose
+/// `Clone` can fail: the configuration in which generic code may take "trivially droppable"
+/// shortcuts. Its drops cannot be observed, so it is excluded from the live/dropped balance of the
+/// ledger; it still carries a serial (each construction and each `Clone` makes a new one), so a
+/// bitwise duplicate standing in for a clone is seen as one value object with two owners.
 macro_rules! nodrop_type {
     ($name:ident, $ix:expr) => {
         #[repr(C)]
         pub struct $name {
-            val: u64,
-            tag: u64,
+            p: Payload,
         }
         impl $name {
-            fn make_with(val: u64, _origin: Origin) -> Self {
-                $name { val, tag: tag_for($ix, 0, val) }
+            fn make_with(val: u64, origin: Origin) -> Self {
+                $name { p: Payload::new_untracked($ix, val, origin) }
             }
         }
         impl Tracked for $name {
             const IX: u8 = $ix;
             const NAME: &'static str = stringify!($name);
-            const HAS_SERIAL: bool = false;
+            const HAS_SERIAL: bool = true;
             fn make(val: u64) -> Self {
                 Self::make_with(val, Origin::New)
             }
             fn serial(&self) -> u64 {
-                0
+                self.p.serial
             }
             fn val(&self) -> u64 {
-                self.val
+                self.p.val
             }
             fn set_val(&mut self, val: u64) {
-                self.val = val;
-                self.tag = tag_for($ix, 0, val);
+                self.p.set($ix, val)
             }
             fn integrity(&self) -> Result<(), String> {
-                if self.tag != tag_for($ix, 0, self.val) {
-                    return Err(format!("corrupt {} value: val={:#x} tag={:#x}", stringify!($name), self.val, self.tag));
-                }
-                Ok(())
+                self.p.integrity($ix, stringify!($name))
             }
         }
         common_impls!($name);
@@ -503,7 +503,7 @@ zst_type!(P2, 18);
 boxed_type!(P3, 19);
 
 pub const COMPONENT_NAMES: [&str; 10] = ["A", "Z", "H", "O", "S", "V", "W", "X", "Y", "T"];
-pub const HAS_SERIAL: [bool; 10] = [true, false, true, true, false, true, true, false, true, false];
+pub const HAS_SERIAL: [bool; 10] = [true, false, true, true, false, true, true, true, true, false];
 /// Whether drops of the type are observable (it has a destructor that reports to the ledger).
 pub const TRACKS_DROPS: [bool; 10] = [true, true, true, true, true, true, true, false, true, true];
 pub const RESOURCE_NAMES: [&str; 4] = ["P0", "P1", "P2", "P3"];
